@@ -76,6 +76,9 @@ def generate(ctx):
                 if d["reward"] == "tensor" and name in tr.THREE_FACTOR:
                     d["reduction"] = "sum"
                 yield d
+    for d in c08.generate(ctx):
+        if d.get("part") == "multicell":
+            yield {**d, "part": "multicell"}
     for rep in range(40 if th else 6):
         for param in ("weight", "bias", "delay"):
             for lam in (0.5, -0.5):
@@ -94,6 +97,16 @@ def run_case(ctx, desc):
         ctx.sample(desc)
     if desc["part"] == "family":
         return _family(ctx, desc)
+    if desc["part"] == "multicell":
+        _REC["parts"][:] = []
+        ok = c08.run_multicell(ctx, desc, "C09")
+        for side, v in _REC["parts"]:
+            ctx.count("parts_checked")
+            if bool(torch.isnan(v).any()) or bool((v < 0).any()):
+                return ctx.violation(f"{desc['trainer']}.multicell.{'potentiating' if side == 'pos' else 'depressing'}_part_negative",
+                                     "a negative-valued part was handed over in a two-cell trainer", desc)
+        _REC["parts"][:] = []
+        return ok
     return _homeostasis(ctx, desc)
 
 
